@@ -316,6 +316,9 @@ func doParsing(mp *msgParser) (err error) {
 // parseGroup iterates through a repeating group to maintain correct order of those fields.
 func parseGroup(mp *msgParser, tags []Tag) {
 	mp.foundBody = true
+	// The body reaches at least to the end of the count field; below, only fields that belong to the
+	// body move its end further (not the header or trailer field that ends the group).
+	mp.trailerBytes = mp.rawBytes
 	dm := mp.msg.fields[mp.fieldIndex : mp.fieldIndex+1]
 	fields := getGroupFields(mp.msg, tags, mp.appDataDictionary)
 
@@ -329,10 +332,10 @@ func parseGroup(mp *msgParser, tags []Tag) {
 		mp.fieldIndex++
 		mp.parsedFieldBytes = &mp.msg.fields[mp.fieldIndex]
 		mp.rawBytes, _ = extractField(mp.parsedFieldBytes, mp.rawBytes)
-		mp.trailerBytes = mp.rawBytes
 
 		// Is this field a member for the group.
 		if isGroupMember(mp.parsedFieldBytes.tag, fields) {
+			mp.trailerBytes = mp.rawBytes
 			// Is this field a nested repeating group.
 			if isNumInGroupField(mp.msg, append(tags, mp.parsedFieldBytes.tag), mp.appDataDictionary) {
 				dm = append(dm, *mp.parsedFieldBytes)
@@ -355,6 +358,7 @@ func parseGroup(mp *msgParser, tags []Tag) {
 			break
 		} else {
 			// Found a body field outside the group.
+			mp.trailerBytes = mp.rawBytes
 			searchTags := []Tag{mp.parsedFieldBytes.tag}
 			// Is this a new group not inside the existing group.
 			if isNumInGroupField(mp.msg, searchTags, mp.appDataDictionary) {
